@@ -315,8 +315,14 @@ def _run_job(job, workdir):
     job.timed_out = False
     try:
         p = subprocess.Popen(cmd, stdout=subprocess.DEVNULL, stderr=subprocess.PIPE, env=env, start_new_session=True)
+        # the driver's limit is a watchdog against runaway processes, not a verdict: it is stretched when the machine is busy with other work
+        # (load average above the number of CPUs), up to six times
         try:
-            _, err = p.communicate(timeout=job.timeout)
+            stretch = min(6.0, max(1.0, os.getloadavg()[0] / max(1, NCPU)))
+        except OSError:
+            stretch = 1.0
+        try:
+            _, err = p.communicate(timeout=job.timeout * stretch)
         except subprocess.TimeoutExpired:
             job.timed_out = True
             try:
